@@ -274,3 +274,56 @@ package updown
 //@ func TopRanking prefix
 //@   modifies everything
 //@   after if#1: assert [c18.args] err == nil
+
+//@ # C08 --dist-push: the k-nearest-distances bins.
+//@ func getMaxKey
+//@   requires forallint(k, implies(in(m, k), k >= 0))
+//@   loop 1:
+//@     invariant max >= 0 && forall(t, 0, range_i, mapkey(t) <= max) && (max == 0 || exists(t, 0, range_i, mapkey(t) == max))
+//@   before return#1: assert [hint.enum] forallint(k, implies(in(m, k), 0 <= mapidx(k) && mapidx(k) < len(m) && mapkey(mapidx(k)) == k))
+//@   ensures result >= 0 && forallint(k, implies(in(m, k), k <= result)) && (len(m) == 0 || in(m, result)) && (len(m) > 0 || result == 0)
+
+//@ # refactorPushCatchment keeps: keys >= 0, nDists = number of keys <= nodeDistance, maxDist = largest key. The key set
+//@ # becomes: unchanged if the distance is present; keys - {largest} + {d} when at capacity; keys + {d} otherwise.
+//@ func refactorPushCatchment
+//@   requires nodeDistance >= 1 && rS.distance >= 0
+//@   requires forallint(k, implies(in(pC.catchmentMap, k), k >= 0)) && len(pC.catchmentMap) <= nodeDistance && pC.nDists == len(pC.catchmentMap)
+//@   requires forallint(k, implies(in(pC.catchmentMap, k), k <= pC.maxDist)) && (len(pC.catchmentMap) == 0 || in(pC.catchmentMap, pC.maxDist))
+//@   requires implies(len(pC.catchmentMap) == nodeDistance, rS.distance <= pC.maxDist)
+//@   modifies everything
+//@   ensures [keys.nonneg] forallint(k, implies(in(pC.catchmentMap, k), k >= 0))
+//@   ensures [keys.count] len(pC.catchmentMap) <= nodeDistance && len(pC.catchmentMap) >= 1
+//@   ensures [ndists] pC.nDists == len(pC.catchmentMap)
+//@   ensures [maxdist.bound] forallint(k, implies(in(pC.catchmentMap, k), k <= pC.maxDist))
+//@   ensures [maxdist.key] in(pC.catchmentMap, pC.maxDist)
+//@   ensures [inserted] in(pC.catchmentMap, rS.distance)
+//@   ensures [present] implies(old(in(pC.catchmentMap, rS.distance)), forallint(k, in(pC.catchmentMap, k) == old(in(pC.catchmentMap, k))))
+//@   ensures [evict] implies(!old(in(pC.catchmentMap, rS.distance)) && old(len(pC.catchmentMap)) == nodeDistance, forallint(k, in(pC.catchmentMap, k) == (k == rS.distance || (old(in(pC.catchmentMap, k)) && k != old(pC.maxDist)))))
+//@   ensures [grow] implies(!old(in(pC.catchmentMap, rS.distance)) && old(len(pC.catchmentMap)) < nodeDistance, forallint(k, in(pC.catchmentMap, k) == (k == rS.distance || old(in(pC.catchmentMap, k)))))
+
+//@ # findUpDownCatchmentPushDistance: for each of up/down/side the bin's keys are exactly the (at most pushDist) smallest
+//@ # distinct distances seen so far in that direction: every key was seen, and every seen distance is a key or lies beyond
+//@ # the largest key of a full bin.
+//@ func findUpDownCatchmentPushDistance
+//@   modifies everything
+//@   requires pushDist >= 1
+//@   requires len(recv(cIn)) < 2147483647
+//@   requires len(q.snps) == len(q.snpsPos) && len(q.ambs) % 2 == 0
+//@   requires sorted(q.snpsSorted) && sorted(q.snpsPos)
+//@   requires forall(t, 0, len(recv(cIn)), len(recv(cIn)[t].snps) == len(recv(cIn)[t].snpsPos) && len(recv(cIn)[t].ambs) % 2 == 0)
+//@   requires forall(t, 0, len(recv(cIn)), sorted(recv(cIn)[t].snpsSorted))
+//@   ghost gUp map[int]bool = map[int]bool{}
+//@   ghost gDown map[int]bool = map[int]bool{}
+//@   ghost gSide map[int]bool = map[int]bool{}
+//@   before if#4: do gUp[distance] = true
+//@   before if#5: do gDown[distance] = true
+//@   before if#6: do gSide[distance] = true
+//@   loop 1:
+//@     invariant len(sent(cOut)) == 0
+//@     invariant [up.wf] forallint(k, implies(in(pushup.catchmentMap, k), k >= 0 && k <= pushup.maxDist)) && len(pushup.catchmentMap) <= pushDist && pushup.nDists == len(pushup.catchmentMap) && (len(pushup.catchmentMap) == 0 || in(pushup.catchmentMap, pushup.maxDist))
+//@     invariant [down.wf] forallint(k, implies(in(pushdown.catchmentMap, k), k >= 0 && k <= pushdown.maxDist)) && len(pushdown.catchmentMap) <= pushDist && pushdown.nDists == len(pushdown.catchmentMap) && (len(pushdown.catchmentMap) == 0 || in(pushdown.catchmentMap, pushdown.maxDist))
+//@     invariant [side.wf] forallint(k, implies(in(pushside.catchmentMap, k), k >= 0 && k <= pushside.maxDist)) && len(pushside.catchmentMap) <= pushDist && pushside.nDists == len(pushside.catchmentMap) && (len(pushside.catchmentMap) == 0 || in(pushside.catchmentMap, pushside.maxDist))
+//@     invariant [up.nearest] forallint(s, implies(in(pushup.catchmentMap, s), in(gUp, s)) && implies(in(gUp, s), in(pushup.catchmentMap, s) || (len(pushup.catchmentMap) == pushDist && s > pushup.maxDist)))
+//@     invariant [down.nearest] forallint(s, implies(in(pushdown.catchmentMap, s), in(gDown, s)) && implies(in(gDown, s), in(pushdown.catchmentMap, s) || (len(pushdown.catchmentMap) == pushDist && s > pushdown.maxDist)))
+//@     invariant [side.nearest] forallint(s, implies(in(pushside.catchmentMap, s), in(gSide, s)) && implies(in(gSide, s), in(pushside.catchmentMap, s) || (len(pushside.catchmentMap) == pushDist && s > pushside.maxDist)))
+//@   ensures len(sent(cOut)) == 1 && sent(cOut)[0].qname == q.id && sent(cOut)[0].qidx == q.idx
